@@ -506,7 +506,25 @@ func (m *c15mon) unary(ops c15ops, x *c15val) {
 	var back fr.Element
 	back.SetString(xe.String())
 	m.expect("SetString(String)", &back, x.v, x, nil)
-	c.EvalN(cls("unary-api"), int64(30+len(c15exps)), nt)
+	// the setters on a receiver that already holds a full-width value (every limb non-zero): the old contents must be gone
+	dirty := fr.Element{0xffffffffffffffff, 0xfffffffffffffffe, 0xfffffffffffffffd, 0x0fffffffffffffff}
+	for _, st := range []struct {
+		name string
+		f    func(r *fr.Element)
+	}{
+		{"SetBigInt/used-receiver", func(r *fr.Element) { r.SetBigInt(x.v) }},
+		{"SetBigInt(v+r)/used-receiver", func(r *fr.Element) { r.SetBigInt(new(big.Int).Add(x.v, ref.R)) }},
+		{"SetString/used-receiver", func(r *fr.Element) { r.SetString(x.v.String()) }},
+		{"SetBytes/used-receiver", func(r *fr.Element) { r.SetBytes(x.v.Bytes()) }},
+		{"SetBytesLE/used-receiver", func(r *fr.Element) { b := ref.LE32(x.v); r.SetBytesLE(b[:]) }},
+		{"SetInterface/used-receiver", func(r *fr.Element) { r.SetInterface(x.v) }},
+		{"Set/used-receiver", func(r *fr.Element) { r.Set(&xe) }},
+	} {
+		r := dirty
+		st.f(&r)
+		m.expect(st.name, &r, x.v, x, nil)
+	}
+	c.EvalN(cls("unary-api"), int64(37+len(c15exps)), nt)
 }
 
 func (m *c15mon) batchInvert(rng *rand.Rand, vals []c15val) {
